@@ -139,6 +139,19 @@ def gen(prop, stream, tier, avoid):
         elif k == "edit_handle":
             op["vec"] = [rng.dyadic(-4, 4, 4) for _ in range(3)]
         ops.append(op)
+    if pooled and len(surf_idx) >= 2 and kn.chance(0.3):
+        # motif: tessellate on the pool, give only some elements new work (new member / edit through the handle), tessellate again
+        a, b = surf_idx[0], surf_idx[1]
+        motif = [{"op": "cadd", "obj": a}, {"op": "ctess", "obj": a, "delta": kn.chance(0.7), "force": False, "n": kn.randint(3, 5)},
+                 {"op": "cadd", "obj": b}]
+        if len(surf_idx) >= 3:
+            motif.append({"op": "cadd", "obj": surf_idx[2]})
+        else:
+            motif.append({"op": "edit_handle", "obj": b, "vec": [1.0, -0.5, 0.25]})
+        motif += [{"op": "ctess", "obj": a, "delta": motif[1]["delta"], "force": False, "n": motif[1]["n"]}, {"op": "cread", "obj": a}]
+        ops = [o for o in ops if o["op"] != "cadd"]
+        at = kn.randint(0, len(ops))
+        ops = ops[:at] + motif + ops[at:]
     # ---- configuration vectors
     ncfg = kn.pick([2, 3, 3, 4, 5])
     configs = []
